@@ -485,18 +485,22 @@ pub fn run(seed: u64, shard: u64, sequences: usize, exotic: bool) -> Report {
             };
             // an exotic endpoint (empty range, dot literal) taints the verdicts it
             // takes part in: they are keyed under its class tag
-            let tag = exotic_tag(&c.ep)
-                .or_else(|| {
-                    accepted
-                        .iter()
-                        .filter(|a| {
-                            a.ep.method == c.ep.method
-                                && (a.ep.segs == c.ep.segs || wildcard_shadow(std::slice::from_ref(&a.ep), &c.ep))
-                        })
-                        .find_map(|a| exotic_tag(&a.ep))
-                })
-                .map(|t| format!("{t}:"))
-                .unwrap_or_default();
+            let mut tags_involved: Vec<&'static str> = exotic_tag(&c.ep).into_iter().collect();
+            tags_involved.extend(
+                accepted
+                    .iter()
+                    .filter(|a| {
+                        a.ep.method == c.ep.method
+                            && (a.ep.segs == c.ep.segs || wildcard_shadow(std::slice::from_ref(&a.ep), &c.ep))
+                    })
+                    .filter_map(|a| exotic_tag(&a.ep)),
+            );
+            // an empty range explains a refusal by itself: it wins over the other class tag
+            let tag = if tags_involved.contains(&"empty-range") {
+                "empty-range:".to_string()
+            } else {
+                tags_involved.first().map(|t| format!("{t}:")).unwrap_or_default()
+            };
             rep.eval(format!("{tag}{}|{}", reason.clone().unwrap_or_else(|| "accept".into()), if real_accepts { "accepted" } else if how.starts_with("Err") { "err" } else { "panic" }));
             if rep.want_sample() && reason.is_some() {
                 rep.sample(json!({"offered": case_json(&c), "model": reason, "real": how, "after": accepted.len()}));
